@@ -33,8 +33,9 @@ ACTIONS = ['DoTileRequest', 'DoMapRequest', 'RenderLayer', 'DoFetch', 'DoStore',
 class World(object):
     def __init__(self, name, origin='ll', bbox=(0, 0, 640, 320), res=(80, 40, 20), tile_size=(4, 4), meta=(1, 1),
                  dims=(), dim_default='', cov=None, tile_limit=0, pixel_limit=0, source='tile', coarse=False,
-                 global_grid=None, sqrt2=False, levels=None, srs_extent=None):
+                 global_grid=None, sqrt2=False, levels=None, srs_extent=None, mixed=False):
         self.name = name
+        self.mixed = mixed       # cache with `format: mixed` (png or jpeg files, the tile set offers image/png only)
         self.srs_extent = tuple(srs_extent) if srs_extent else None     # services.wms.bbox_srs: extent of the request SRS
         self.origin = origin
         self.bbox = tuple(bbox)
@@ -266,6 +267,9 @@ class App(object):
                  'cache': {'type': 'file', 'directory_layout': 'tms', 'directory': os.path.join(self.cache_dir, lay)}}
             if w.tile_limit:
                 c['max_tile_limit'] = w.tile_limit
+            if w.mixed:
+                c['format'] = 'mixed'
+                c['request_format'] = 'image/png'
             caches['c' + lay] = c
             layer = {'name': lay, 'title': lay, 'sources': ['c' + lay]}
             if w.dims and lay == 'fine':
@@ -346,9 +350,10 @@ class App(object):
                     if rel and rel[0].startswith('time-'):
                         dim = rel[0][5:]
                         rel = rel[1:]
-                    if len(rel) == 3 and rel[2].endswith('.png'):
+                    ext = '.mixed' if self.w.mixed else '.png'          # (a cache in mixed mode names its files *.mixed)
+                    if len(rel) == 3 and rel[2].endswith(ext):
                         try:
-                            out.add((lay, int(rel[1]), int(rel[2][:-4]), int(rel[0]), dim))
+                            out.add((lay, int(rel[1]), int(rel[2][:-len(ext)]), int(rel[0]), dim))
                             continue
                         except ValueError:
                             pass
@@ -441,6 +446,8 @@ def worlds(tier):
         # clipped); oversized requests that overhang or miss it must be refused like any other oversized request
         World('ll-srs-extent', origin='ll', bbox=(0, 0, 640, 320), res=(80, 40, 20), tile_limit=6, pixel_limit=256,
               srs_extent=(-2000, -2000, 3000, 3000)),
+        # a cache in mixed mode (stores png or jpeg files, offers image/png): any other format is not offered
+        World('ul-mixed', origin='ul', bbox=(0, 0, 640, 320), res=(80, 40, 20), source='wms', mixed=True),
         World('gm4', global_grid='GLOBAL_MERCATOR', levels=4),
         World('gg3' if tier != 'thorough' else 'gg4', global_grid='GLOBAL_GEODETIC', levels=3 if tier != 'thorough' else 4),
     ]
